@@ -49,7 +49,9 @@ class AT:
         c = zb - za
         L = abs(c)
         u = c / L
-        return za + u * (L / (2 * np.sin(phi))) * (1j * (np.exp(1j * (phi - 2 * phi * s)) - np.exp(1j * phi)))
+        # = za + u R i (e^{i(phi - 2 phi s)} - e^{i phi}) with R = L / (2 sin phi), written without the difference of two nearly
+        # equal exponentials (for a bulge of 1e-8 that difference cost eight digits of the sagitta)
+        return za + u * L * (np.sin(phi * s) / np.sin(phi)) * np.exp(1j * phi * (1 - s))
 
     def arc_length(self, key):
         a, b = self.ends(key)
